@@ -307,23 +307,33 @@ def corpus_check(run: core.Run) -> None:
     # SCALE: the same idioms inside an expression too deep for a recursive walk (a generated sum of 700 terms, 400 nested
     # negations): whatever the checker does then (reject, or give up with a RecursionError), it must not ACCEPT
     deep_hosts = [" + ".join(["x"] * 700) + " + round(x, ndigits={})", " + ".join(["x"] * 700) + " + abs({})",
-                  "-(" * 400 + "str(object={})" + ")" * 400, "max(" * 300 + "{}" + ", x)" * 300]
+                  "-(" * 400 + "str(object={})" + ")" * 400, "max(" * 300 + "{}" + ", x)" * 300,
+                  "(" + " + ".join(["x"] * 700) + ", {})", "(" + " + ".join(["x"] * 80) + ", {})"]
+    import sys as _sys
     for host in deep_hosts:
-        for esc in ESCAPES[:16]:
+        for esc in ESCAPES[:12] + ESCAPES[-5:]:
             expr = host.format(esc)
             try:
                 ast.parse(expr, mode="eval")
             except (SyntaxError, RecursionError, MemoryError):
                 continue
             n += 1
-            for entry, fn_ in (("evaluator", judge), ("sweep-factory", judge_factory)):
-                try:
-                    verdict = fn_(expr)[0]
-                except RecursionError:
-                    verdict = "other-error"
-                if verdict == "accepted":
-                    run.violation(f"accepted-forbidden:deep-expression:{entry}",
-                                  f"escape idiom {esc!r} inside an expression of {len(expr)} characters ({host[:24]}...): accepted by the {entry}", {"expr": expr})
+            # ... under the interpreter's default recursion limit and with little stack left (a lowered limit / a deep caller)
+            for limit in (None, 160):
+                old_limit = _sys.getrecursionlimit()
+                for entry, fn_ in (("evaluator", judge), ("sweep-factory-api", lambda e: judge_factory_explicit(e) + (None,))):
+                    try:
+                        if limit:
+                            _sys.setrecursionlimit(limit)
+                        verdict = fn_(expr)[0]
+                    except RecursionError:
+                        verdict = "other-error"
+                    finally:
+                        _sys.setrecursionlimit(old_limit)
+                    if verdict == "accepted":
+                        run.violation(f"accepted-forbidden:deep-expression:{entry}" + (":little-stack" if limit else ""),
+                                      f"escape idiom {esc!r} inside an expression of {len(expr)} characters ({host[:24]}...)"
+                                      + (f" with the recursion limit at {limit}" if limit else "") + f": accepted by the {entry}", {"expr": expr})
     run.evaluations += n
     run.extra["escape_corpus_expressions"] = n
     # acceptance must depend on the declared variables of THIS compilation, whatever was compiled before
